@@ -138,10 +138,22 @@ func (t *tr) loop(s ast.Stmt, after []ast.Stmt, ret func([]ast.Expr) string, k f
 	var pre []ast.Stmt // statements executed once before the loop (the init)
 	switch x := s.(type) {
 	case *ast.ForStmt:
-		if x.Cond == nil || x.Post == nil {
+		if x.Cond == nil {
 			fail(t.pos(x), "only counted for loops are supported")
 		}
 		sh.body = x.Body
+		post := x.Post
+		if post == nil && x.Init == nil && len(x.Body.List) > 0 {
+			// a counted loop in disguise: for i != B [&& C] { ...; i++ }.  The increment is the last
+			// statement of the body, so (no continue allowed) it runs exactly once per trip, last.
+			post = x.Body.List[len(x.Body.List)-1]
+			b := *x.Body
+			b.List = x.Body.List[:len(x.Body.List)-1]
+			sh.body = &b
+		}
+		if post == nil {
+			fail(t.pos(x), "only counted for loops are supported")
+		}
 		cond := ast.Expr(x.Cond)
 		for {
 			p, ok := cond.(*ast.ParenExpr)
@@ -171,11 +183,23 @@ func (t *tr) loop(s ast.Stmt, after []ast.Stmt, ret func([]ast.Expr) string, k f
 			fail(t.pos(x), "loop condition must compare the loop variable on the left")
 		}
 		sh.ivar, sh.cmp, sh.bound = id, cmp.Op, cmp.Y
-		inc, ok := x.Post.(*ast.IncDecStmt)
-		if !ok || inc.Tok != token.INC {
-			fail(t.pos(x), "loop post statement must be i++")
+		var incX ast.Expr
+		switch inc := post.(type) {
+		case *ast.IncDecStmt:
+			if inc.Tok == token.INC {
+				incX = inc.X
+			}
+		case *ast.AssignStmt: // i += 1
+			if inc.Tok == token.ADD_ASSIGN && len(inc.Lhs) == 1 && len(inc.Rhs) == 1 {
+				if tv, ok := t.p.info.Types[inc.Rhs[0]]; ok && tv.Value != nil && tv.Value.ExactString() == "1" {
+					incX = inc.Lhs[0]
+				}
+			}
 		}
-		pid, ok := inc.X.(*ast.Ident)
+		if incX == nil {
+			fail(t.pos(x), "the loop must advance by i++ (post statement, or last statement of the body of a condition-only loop)")
+		}
+		pid, ok := incX.(*ast.Ident)
 		if !ok || t.p.info.Uses[pid] != t.p.info.Uses[id] {
 			fail(t.pos(x), "loop post statement must increment the loop variable")
 		}
